@@ -83,7 +83,7 @@ func zzStubSm3New() hash.Hash { zzLastHash = &zzRecHash{}; return zzLastHash }
 //
 //verif:property C01
 //verif:expect-reach end
-//verif:bound public key coordinates with exactly kx, ky significant bytes for kx, ky in {1,2,31,32} (content symbolic), user id of each length 0..3 (quick) / 0..16 plus the boundary lengths 8191 and 8192 with zero content (thorough)
+//verif:bound public key coordinates with exactly kx, ky significant bytes for kx, ky in {1,2,31,32} (content symbolic), user id of each length 0..3, 32, 33 (quick) / 0..16, 31..33, 255, 256 and the boundary lengths 8191 and 8192 with zero content (thorough)
 //verif:stub github.com/tjfoc/gmsm/sm3.New zzStubSm3New
 //verif:unwind 9000
 func zzH_c01_za_layout() {
@@ -101,22 +101,17 @@ func zzH_c01_za_layout() {
 		return top.Add(top, new(big.Int).SetBytes(vBytes(name+".rest", k-1, k-1)))
 	}
 	pub := &PublicKey{Curve: P256Sm2(), X: mk("x", kx), Y: mk("y", ky)}
-	maxU := 3
+	// id lengths: 0..3 and 32, 33 (where the bit length no longer fits one byte) in the quick tier;
+	// 0..16, 31..33, 255, 256 and the boundary lengths 8191 (zero content) and 8192 in the thorough tier
+	lens := []int{0, 1, 2, 3, 32, 33}
 	if vTier() == 1 {
-		maxU = 16
+		lens = []int{0, 1, 2, 3, 4, 5, 6, 7, 8, 9, 10, 11, 12, 13, 14, 15, 16, 31, 32, 33, 255, 256, 8191, 8192}
 	}
-	nul := maxU + 1
-	if vTier() == 1 {
-		nul = maxU + 3 // plus the boundary lengths 8191 and 8192
-	}
-	ul := vChoice("uidlen", nul)
+	ul := lens[vChoice("uidlen", len(lens))]
 	var uid []byte
-	switch {
-	case ul == maxU+1:
-		uid = make([]byte, 8191)
-	case ul == maxU+2:
-		uid = make([]byte, 8192)
-	default:
+	if ul >= 8191 {
+		uid = make([]byte, ul)
+	} else {
 		uid = vBytes("uid", ul, ul)
 	}
 	za, err := ZA(pub, uid)
